@@ -97,7 +97,7 @@ Fixpoint digits_lsb (b : N) (fuel : nat) (n : N) : list N :=
   end.
 Definition digit_char (d : N) : N := if d <? 10 then 48 + d else 87 + d.
 Definition to_base (b : N) (n : N) : str :=
-  if n =? 0 then [48] else map digit_char (rev (digits_lsb b (N.size_nat n) n)).
+  if n =? 0 then [48] else map digit_char (rev (digits_lsb b (N.to_nat (N.size n)) n)).
 Definition dec (n : N) : str := to_base 10 n.
 (* "%x" % n, computed on the binary representation (no division: the values have 512 bits) *)
 Fixpoint pos_bits (p : positive) : list bool :=      (* least significant first *)
@@ -474,7 +474,19 @@ Definition enc_op (o : op) : val :=
   | Unlink p => VL [VZ 4; VZ (path_id p)]
   | _ => VL [VZ 9]
   end.
-Definition enc_state (s : fs) : val := VL [enc_opt (file_data s P); enc_opt (file_data s TMP)].
+(* a file content, coded against the old Manifest and the new text to keep the cases small:
+   None | 1 = the old Manifest content | 2 = the new text | the data itself *)
+Definition enc_data (old : option str) (new : str) (o : option str) : val :=
+  match o with
+  | None => VNone
+  | Some d =>
+      match old with
+      | Some od => if str_eqb d od then VZ 1 else if str_eqb d new then VZ 2 else VS d
+      | None => if str_eqb d new then VZ 2 else VS d
+      end
+  end.
+Definition enc_state (old : option str) (new : str) (s : fs) : val :=
+  VL [enc_data old new (file_data s P); enc_data old new (file_data s TMP)].
 (* stream "update": written?, ops, the state after every crash prefix k = 0..n, the state after
    an OSError at call k = 0..n-1 (with the discard) *)
 Definition run_update_with (w : fs -> N -> nat -> str -> list op) (b : bstr) : val :=
@@ -482,9 +494,11 @@ Definition run_update_with (w : fs -> N -> nat -> str -> list op) (b : bstr) : v
   match update_with w i s with
   | Fail k => VErr k
   | Ok (wr, ops) =>
+      let old := file_data s P in
+      let new := match update_text (u_thin i) (u_scan i) (u_fetch i) with Ok (Some t) => t | _ => [] end in
       VL [VB wr; VL (map enc_op ops);
-          VL (map (fun k => enc_state (run (firstn k ops) s)) (seq 0 (S (length ops))));
-          VL (map (fun k => enc_state (run (eio_ops ops k) s)) (seq 0 (length ops)))]
+          VL (map (fun k => enc_state old new (run (firstn k ops) s)) (seq 0 (S (length ops))));
+          VL (map (fun k => enc_state old new (run (eio_ops ops k) s)) (seq 0 (length ops)))]
   end.
 Definition run_update : bstr -> val := run_update_with write_ops.
 
